@@ -30,8 +30,11 @@ def gen_cases(tier, seed):
         desc['labels'] = r.choice(gen.LABEL_SCHEMES)
         nn = desc['n']
         I0 = r.sample(range(nn), r.randint(1, min(nn, 3)))
-        tmin = r.choice([0, -2, 1.5])
-        out.append({'kind': 'exact', 'graph': desc, 'I0': I0, 'tmin': tmin, 'tmax': tmin + r.choice([1.0, 3.0, 7.0]),
+        tmin = r.choice([0, -2, 1.5, -0.5])
+        tmax = tmin + r.choice([1.0, 3.0, 7.0])
+        if tmin < 0 and r.random() < 0.4:
+            tmax = r.choice([0, 0.0])          # horizon exactly zero (a falsy number) after a negative start
+        out.append({'kind': 'exact', 'graph': desc, 'I0': I0, 'tmin': tmin, 'tmax': tmax,
                     'profile': r.choice(['sparse', 'dense', 'heavy', 'late']), 'form': r.choice(['sep', 'joint']), 'full': r.random() < 0.6, 'seed': cs})
     runs = 20000 if q else 250000
     ncfg = 4 if q else 12
